@@ -5,6 +5,7 @@ independent std::map twin (and std::unordered_multimap for the wrapper) which is
 import os, re
 
 MS = [1, 2, 3, 4, 7, 15]
+GEN = ['gen_growcap.json', 'gen_arraybucket.json', 'gen_arraybucket_cnt.json', 'gen_arraybucket_s.json']
 BUCKETS = ['L.c', 'O8.c', 'O2.c', 'L.f', 'O8.f', 'O2.f']
 
 # ----------------------------------------------------------------------------- generators
@@ -231,6 +232,8 @@ def oracle(ctx, cases, impl_lines):
                 if why: break
             if why: bad.append((c, out[-400:], why)); continue
             if ':H' in out and ':N:}' in out: ctx.nontrivial.add(c)
+        elif c.split()[0] in ('gc', 'ms', 'gp', 'fi', 'ab2'):
+            pass      # translator validation only: decided by the correspondence with the generated Gallina
         elif c.startswith('um '):
             if 'eqT' in out or 'er' in out: ctx.nontrivial.add(c)
     return bad
@@ -240,7 +243,7 @@ def oracle(ctx, cases, impl_lines):
 # built for an even and at least one odd M, i.e. with both value types.  thorough: all 6 per M.
 QUICK_SETS = {1: ['O8.c', 'L.f'], 2: ['L.c', 'O8.f', 'O2.c'], 3: ['L.c', 'O8.f'], 4: ['O8.c', 'L.f', 'O2.f'],
               7: ['O2.c', 'O8.c'], 15: ['O2.f', 'L.f']}
-SAN_MS = [2, 4, 15]
+SAN_MS = [2, 4]          # M=2: L.c, O8.f, O2.c   M=4: O8.c, L.f, O2.f -- all six configurations under ASan+UBSan
 MAC = {'L.c': 'EN_LC', 'O8.c': 'EN_O8C', 'O2.c': 'EN_O2C', 'L.f': 'EN_LF', 'O8.f': 'EN_O8F', 'O2.f': 'EN_O2F'}
 
 def enabled(ctx, M):
@@ -258,7 +261,7 @@ EXPECT_CFG = {   # substrings that the harness' description of the instantiated 
 def config_audit(ctx, exes):
     """the INTENDED classes are really instantiated: ask the binary serving each (M, configuration) to describe it"""
     bad = []; seen = {}
-    for key, h in sorted((k, v) for k, v in exes.items() if k != 0):
+    for key, h in sorted((k, v) for k, v in exes.items() if isinstance(k, tuple)):
         M, b = key
         path = os.path.join(ctx.build, 'cfg.cases'); open(path, 'w').write('cfg %s %d %s 0\n' % (b, M, 's' if wants_string(b, M) else 'i'))
         rc, out, err = ctx.run_lines([h], path)
@@ -371,9 +374,10 @@ def build(ctx):
                      san, [(M, x) for x in QUICK_SETS[M]]))      # -g0/-g1: full debug info doubles the compile time of these TUs
         if not quick:
             rest = [x for x in BUCKETS if x not in QUICK_SETS[M]]
-            jobs.append(('harness.cpp', 'harness_c%d' % M, ['-DHM_LIST=X(%d)' % M, '-DEN_SUBSET'] + ['-D' + MAC[x] for x in rest] + ['-g0'],
-                         False, [(M, x) for x in rest]))
+            jobs.append(('harness.cpp', 'harness_c%d' % M, ['-DHM_LIST=X(%d)' % M, '-DEN_SUBSET'] + ['-D' + MAC[x] for x in rest] + ['-g0', '-O0'],
+                         False, [(M, x) for x in rest]))      # -O0: these unsanitized complement TUs only have to compile fast
     jobs.append(('harness_um.cpp', 'harness_um', ['-g0'] if quick else ['-g1'], not quick, 0))
+    jobs.append(('harness_gen.cpp', 'harness_gen', ['-g0'], False, 'gen'))
     paths = {}; todo = []
     for src, exe, fl, san, serves in jobs:
         name = '%s_%s' % (exe, _src_hash(ctx, src, fl))
@@ -395,7 +399,7 @@ def build(ctx):
     out = {}; missing = []
     for src, exe, fl, san, serves in jobs:
         if paths.get(exe) is None: missing.append(exe); continue
-        if serves == 0: out[0] = paths[exe]
+        if serves == 0 or serves == 'gen': out[serves] = paths[exe]
         else:
             for key in serves: out[key] = paths[exe]
     if missing:
@@ -430,7 +434,7 @@ def replay(ctx, rp):
 
 
 def run(ctx):
-    scale = 1 if ctx.quick() else 6
+    scale = 1 if ctx.quick() else 4
     ctx.trusted += ['hand-written Gallina models (ArrayBucketModel.v, MultiMapModel.v, WrapperModel.v) mirror the C++ by reading; '
                     'bound to the code only by the differential run of their extracted OCaml against the real containers on every check',
                     'extraction: ExtrOcamlBasic only (no Extract Constant), OCaml 4.13.1, zarith for decimal I/O only',
@@ -448,6 +452,7 @@ def run(ctx):
         try: res['exes'] = build(ctx)
         except Exception as e: res['err'] = repr(e)
     th = threading.Thread(target=_bg); th.start()
+    ctx.regen(GEN)        # Gen_*.v from /repo's current headers (a translation failure removes the file: proofs cannot stay green)
     ctx.prove()
     th.join()
     if 'exes' not in res:
@@ -457,7 +462,9 @@ def run(ctx):
     config_audit(ctx, exes)
     cases = gen_cases(ctx, scale)
     um_cases = gen_um_cases(ctx, scale) if exes.get(0) else []
-    have_model = ctx.stages.get('prove', {}).get('ok') and ctx.extract()
+    # the executable models are extracted even when a PROOF broke (make -k still builds the model .vo files): the
+    # correspondence is what turns a broken refinement lemma into a concrete failing input
+    have_model = bool(ctx.extract())
     if any(not s['ok'] for s in ctx.stages.values()):
         ctx.log('a stage broke: searching the implementation for a failing input with the thorough generator')
         cases = cases + gen_cases(ctx, 4)
@@ -465,12 +472,12 @@ def run(ctx):
     for c in cases:
         h = exes.get(cfg_of(c))
         if h is not None: byexe.setdefault(h, []).append(c)
-    groups = sorted(byexe.items()) + [(exes.get(0), um_cases)]
+    groups = sorted(byexe.items()) + [(exes.get(0), um_cases), (exes.get('gen'), gen_kernel_cases(ctx))]
     total_bad = []; injected_total = [0, 0, 0, 0, 0, 0]; dist = new_dist()
     for h, cs in groups:
         if h is None or not cs: continue
-        M = 0 if h == exes.get(0) else 1
-        name = 'wrapper' if not M else 'mm-' + re.sub(r'^harness_([mc]\d+)_.*$', r'\1', os.path.basename(h))
+        M = 0 if h in (exes.get(0), exes.get('gen')) else 1
+        name = 'generated-kernels' if h == exes.get('gen') else 'wrapper' if not M else 'mm-' + re.sub(r'^harness_([mc]\d+)_.*$', r'\1', os.path.basename(h))
         impl_lines = None
         if have_model:
             mism, (rc1, e1, rc2, e2) = ctx.correspond(name, cs, [h], [ctx.model_exe])
@@ -515,6 +522,57 @@ def run(ctx):
 
 
 UM_CFG = [('L', 7), ('O8', 2), ('O2', 1)]
+
+def gen_kernel_cases(ctx):
+    """translator validation of the cxx2coq-generated kernels against the real functions: boundary grid + random"""
+    r = ctx.rng; cases = []
+    edge = sorted(set([0, 1, 2, 3, 4, 5, 63, 64, 65, 100, 128, 149, 150, 151, 192, 199, 200, 250, 1000] +
+                      [2 ** k + d for k in range(3, 64) for d in (-1, 0, 1)] + [2 ** 64 - 1, 2 ** 64 - 2, 2 ** 64 - 65]))
+    for c in edge:
+        for mn in (c + 1, c, c + 2, 2 * c + 1, c + 65, c // 50 * 23 + c, c // 50 * 23 + c + 1):
+            if 0 <= mn < 2 ** 64: cases.append('gc %d %d' % (c, mn))
+    for c in range(0, 400): cases.append('gc %d %d' % (c, c + 1))
+    for _ in range(400):
+        c = r.below(2 ** r.range(1, 64)); cases.append('gc %d %d' % (c, min(2 ** 64 - 1, c + 1 + r.below(2 ** r.range(0, 20)))))
+    for p_ in list(range(0, 17)) + [255, 256, 2 ** 32, 2 ** 60 + 1, 2 ** 64 - 1]:
+        for c in list(range(0, 17)) + [31, 255, 256, 2 ** 64 - 1]: cases.append('ms %d %d' % (p_, c))
+    for st in range(256): cases.append('gp %d' % st)
+    for n in list(range(0, 10)) + [2 ** 64 - 1]:
+        cases.append('fi 7 %d' % n); cases.append('fi 2 %d' % n)
+    # two real ArrayBucket objects, every member that writes mPtr (frame machine ab2_step)
+    for i in range(300 if ctx.quick() else 1500):
+        M = r.choice([1, 2, 7, 15]); ops = []; la = lb = 0; nv = 0
+        for _ in range(r.range(5, 80)):
+            t = r.below(100); s_ = r.choice('fs'); L = la if s_ == 'f' else lb
+            if t < 45: nv += 1; ops.append('+%s,%d' % (s_, nv)); L += 1
+            elif t < 65: ops.append('-%s,%d' % (s_, r.choice([0, max(L - 1, 0), r.below(L + 1)])))
+            elif t < 72: ops.append('b' + s_)
+            elif t < 76: ops.append(r.choice('xc') + s_)
+            elif t < 84: ops.append('w')
+            elif t < 90: ops.append('m' + s_)
+            elif t < 95: ops.append('a' + s_)
+            else: ops.append('y' + s_)
+            # lengths are only needed to aim the indices: recompute lazily from the ops is overkill; keep rough bounds
+            if t < 45:
+                if s_ == 'f': la = L
+                else: lb = L
+            elif t < 72 and L > 0:
+                if s_ == 'f': la = L - 1
+                else: lb = L - 1
+            elif t < 76:
+                if s_ == 'f': la = 0
+                else: lb = 0
+            elif t < 84: la, lb = lb, la
+            elif t < 90:
+                if s_ == 'f': lb = la; la = 0
+                else: la = lb; lb = 0
+            elif t < 95: pass
+            else:
+                if s_ == 'f': lb = la
+                else: la = lb
+        cases.append('ab2 %d %s' % (M, ' '.join(ops)))
+    return cases
+
 
 def gen_um_cases(ctx, scale):
     r = ctx.rng
@@ -565,7 +623,12 @@ def gen_um_cases(ctx, scale):
                     for kq, vq in ps: cur.setdefault(kq, []).append(vq)
                     if not ps: tok = 'h,%d,%d' % (k, 3); cur.setdefault(k, []).append(3)
                 elif kind == 1: tok = 'h,%d,%d' % (k, r.below(9)); cur.setdefault(k, []).append(0)
-                else: tok = r.choice(['m', 'm,1']); cur = oth; oth = {}
+                else:
+                    if r.chance(1, 2): tok = r.choice(['m', 'm,1']); cur = oth; oth = {}
+                    else:
+                        ps = [(r.below(K), r.below(9)) for _ in range(r.range(0, 2))]
+                        tok = 'l' + ''.join(',%d,%d' % q for q in ps); cur = {}
+                        for kq, vq in ps: cur.setdefault(kq, []).append(vq)
             elif t < 92: tok = 'y'; oth = {x: list(v) for x, v in cur.items()}
             elif t < 95: tok = 'Y'; cur = {x: list(v) for x, v in oth.items()}
             else: tok = r.choice(['s', 's,1']); cur, oth = oth, cur
